@@ -279,7 +279,8 @@ def split_executions(lines, reset_key='"e":"reset"'):
     """Splits trace lines into executions; each execution starts with its reset line (if any)."""
     execs, cur = [], []
     for ln in lines:
-        if reset_key in ln and cur:
+        # consecutive reset lines (several expectation lines of one problem) head the same execution
+        if reset_key in ln and cur and reset_key not in cur[-1]:
             execs.append(cur)
             cur = []
         cur.append(ln)
